@@ -169,3 +169,19 @@ func hBigEndianLemma() {
 	binary.BigEndian.PutUint16(o2, uint16(x))
 	vpAssert(vpAnd(o2[0] == byte(x>>8), o2[1] == byte(x)), "BigEndian.PutUint16 summary")
 }
+
+// Lemma: the executor's bit-vector widening float32 -> float64 is exact: the widened pattern compares (in the
+// FP theory, as float64) exactly as the float32 values compare, and NaN-ness / infinity are preserved.
+func init() { vpRegister("hFpWidenLemma", hFpWidenLemma) }
+
+func hFpWidenLemma() {
+	a, b := vpU32(), vpU32()
+	x, y := math.Float32frombits(a), math.Float32frombits(b)
+	wx, wy := math.Float64bits(float64(x)), math.Float64bits(float64(y))
+	vpAssert(vpFpLt64(wx, wy) == vpFpLt32(a, b), "float32->float64 widening preserves <")
+	vpAssert(vpFpEq64(wx, wy) == vpFpEq32(a, b), "float32->float64 widening preserves ==")
+	vpAssert(vpFpIsNaN64(wx) == vpFpIsNaN32(a), "float32->float64 widening preserves NaN-ness")
+	vpAssert((wx>>63 == 1) == (a>>31 == 1), "float32->float64 widening preserves the sign bit")
+	vpAssert((a == 0x7f800000) == (wx == 0x7ff0000000000000), "float32->float64 widening maps +Inf to +Inf only")
+	vpAssert((a == 0xff800000) == (wx == 0xfff0000000000000), "float32->float64 widening maps -Inf to -Inf only")
+}
